@@ -155,7 +155,8 @@ class CTxIn(ImmutableSerializable):
             raise ValueError('CTxIn: nSequence must be an integer between 0x0 and 0xffffffff; got %x' % nSequence)
         object.__setattr__(self, 'nSequence', nSequence)
 
-        object.__setattr__(self, 'prevout', prevout)
+        # an immutable CTxIn never holds the caller's (possibly mutable) outpoint
+        object.__setattr__(self, 'prevout', COutPoint.from_outpoint(prevout))
         object.__setattr__(self, 'scriptSig', scriptSig)
 
     @classmethod
@@ -309,7 +310,8 @@ class CTxWitness(ImmutableSerializable):
     __slots__ = ['vtxinwit']
 
     def __init__(self, vtxinwit=()):
-        object.__setattr__(self, 'vtxinwit', vtxinwit)
+        # freeze the sequence: an immutable CTxWitness never holds the caller's list
+        object.__setattr__(self, 'vtxinwit', tuple(vtxinwit))
 
     def is_null(self):
         for n in range(len(self.vtxinwit)):
